@@ -370,6 +370,38 @@ def run_suite(ctx, programs, seeds, timeout_s=DEFAULT_TIMEOUT, stop_first=False)
     return out
 
 
+def run_native(ctx, programs, rounds=20000, timeout_s=60):
+    """Native stress runs of the litmus programs (release build, real threads, many rounds): a second
+    failing-input search for atomicity bugs whose window is a few instructions wide — the programs'
+    own checks (exactly one destructor run per value, at most one winner, tag consistency) or a crash
+    are the failure.  A build failure is a tool-error, never a finding."""
+    programs = list(dict.fromkeys(programs))
+    ldir, _ = litmus_dir(ctx.repo)
+    tdir = os.path.join(os.path.dirname(ldir), "native-target-" + repo_tag(ctx.repo))
+    env = dict(os.environ)
+    env.update({"CARGO_NET_OFFLINE": "true"})
+    rc, out = _run(["cargo", "build", "--release", "--offline", "--target-dir", tdir] + sum([["--bin", p] for p in programs], []),
+                   cwd=ldir, env=env, timeout=900)
+    res = []
+    if rc != 0:
+        return [dict(program=p, seed=0, status="tool-error", cmd="", report=trim_report(out), wall_s=0.0) for p in programs]
+
+    def one(p):
+        exe = os.path.join(tdir, "release", p)
+        t = time.time()
+        cmd = [exe, "--rounds=%d" % rounds]
+        rc2, o2 = _run(cmd, cwd=ldir, env=env, timeout=timeout_s)
+        # liveness heuristics of the programs ("never succeeded / never reached") depend on scheduling
+        # fairness under load: natively they are not findings, only safety checks and crashes are
+        live = re.search(r"LITMUS-ASSERT-FAILED: [^\n]*(never|polls)", o2) is not None
+        st = "ok" if rc2 == 0 else ("timeout" if rc2 in (124, -999) or live else "assert-failed")
+        return dict(program=p, seed=0, status=st, cmd="cd %s && %s   # native stress, real threads" % (ldir, " ".join(cmd)),
+                    report=trim_report(o2[-3000:]), wall_s=round(time.time() - t, 2), native=True, rounds=rounds)
+    with ThreadPoolExecutor(max_workers=4) as ex:
+        res = list(ex.map(one, programs))
+    return res
+
+
 def status_counts(results):
     c = {}
     for r in results:
